@@ -95,6 +95,8 @@ def program_list(tier):
     progs.append(("concatenate-xr", (2,), ("d0",)))
     progs.append(("concatenate-xr", (3,), ("d0",)))
     progs.append(("expand-inner", (2,), ("d0",), (2, 1)))
+    progs.append(("expand-two-axes", (2,), ("d0",), (2, 3)))
+    progs.append(("expand-two-axes", (2,), ("d0",), (2, 2)))
     progs.append(("expand-inner", (2,), ("d0",), (3, 1)))
     for shape, dims in shapes:
         for di, d in enumerate(dims):
@@ -294,6 +296,28 @@ def build_and_eval(prog):
         act = apply_guarded("concatenate", lambda: A.action.concatenate(dims[0], backend_kwargs={"dim": "i"}))
         want = {(): np.concatenate([raw[(k,)] for k in range(shape[0])], axis=0)}
         return finish(act, want, (), coords)
+    if kind == "expand-two-axes":
+        # the same action expanded along its first internal axis, then (in the same process) along its last one, counted from the end
+        inner = prog[3]
+        A.arr = {idx: E.fresh_array(f"j{''.join(map(str, idx))}", inner) for idx in np.ndindex(*shape)}
+        pay = np.empty(shape, dtype=object)
+        for idx in np.ndindex(*shape):
+            pay[idx] = A._mk(idx)
+        A.action = fluent.from_source(pay, dims=list(dims), coords=A.coords)
+        vals = dict(A.arr)
+        first = apply_guarded("expand", lambda: A.action.expand("e", internal_dim=0, dim_size=inner[0]))
+        want0 = {(e,) + idx: v[e] for idx, v in vals.items() for e in range(inner[0])}
+        c0 = dict(coords)
+        c0["e"] = list(range(inner[0]))
+        r0 = finish(first, want0, ("e",) + tuple(dims), c0)
+        if r0[0] != r0[2] or r0[1] != r0[3]:
+            raise Violated("dims-differ-from-documented", f"{r0[0]} {r0[1]} vs {r0[2]} {r0[3]}")
+        second = apply_guarded("expand", lambda: A.action.expand("e", internal_dim=-1, dim_size=inner[-1]))
+        want1 = {(e,) + idx: v[..., e] for idx, v in vals.items() for e in range(inner[-1])}
+        c1 = dict(coords)
+        c1["e"] = list(range(inner[-1]))
+        r1 = finish(second, want1, ("e",) + tuple(dims), c1)
+        return r1[0], r1[1], r1[2], r1[3], r0[4] + r1[4]
     if kind == "expand-inner":
         # inner arrays with an extra axis of length 1: only the expanded axis may be dropped
         inner = prog[3]
